@@ -285,6 +285,7 @@ func Run(t *testing.T, in *Input, target string, keepLog bool) (res *Result) {
 		})
 	}()
 	verifhook.Hook = nil
+	runProgress.Add(1)
 	res = &Result{
 		Violations: s.viols,
 		Digest:     s.sched.Digest(),
@@ -428,6 +429,12 @@ func (s *Sim) root() {
 	}
 	if s.cur != nil && !s.cur.dead.Load() {
 		s.kill(s.cur, false)
+	}
+	s.sched.mu.Lock()
+	tp := s.sched.taskPanic
+	s.sched.mu.Unlock()
+	if tp != "" && s.harnessErr == "" {
+		s.harnessErr = tp
 	}
 	if s.harnessErr == "" {
 		s.finalOracles()
